@@ -46,9 +46,11 @@ impl OpeningHoursExpression {
 
         let tail = &self.rules[tail_pos];
 
-        // A fallback rule only applies on days that previous rules left closed.
+        // A fallback rule only applies on days that previous rules left closed, and it keeps what
+        // they spill from the day before.
         if tail.operator == RuleOperator::Fallback
-            && (self.rules[..tail_pos].iter()).any(|rs| rs.kind != RuleKind::Closed)
+            && (self.rules[..tail_pos].iter())
+                .any(|rs| rs.kind != RuleKind::Closed || !rs.time_selector.is_00_24())
         {
             return false;
         }
